@@ -21,8 +21,10 @@ def c06(case, f):
             return "KF-11"
         # KF-39: the columns of a scalar sub-query in a select item come back from a nested analysis as (column, qualifier) and the qualifier
         # is looked up in the *outer* query's alias map: an alias, or the bare name of a schema-qualified table, falls through to Table(qualifier)
-        if (b in feat["select_subquery_aliases"] or b in feat["select_subquery_tables"] or b in feat["select_subquery_fullname_schemas"]) and t.startswith("<default>."):
-            return "KF-39"
+        if b in feat["select_subquery_fullname_schemas"] and t.startswith("<default>."):
+            return "KF-39"  # (a) schema.table.column inside the sub-query: phantom table named after the schema
+        if case.get("dialect") == "non-validating" and (b in feat["select_subquery_tables"] or (b in feat["select_subquery_aliases"] and t.startswith("<default>."))):
+            return "KF-39"  # (c) the legacy analyzer does not read an operand sub-query at table level
         # KF-40: the alias of the table an UPDATE writes is not registered: a SET source qualified with it falls through to Table(alias)
         if b in feat["update_first_table_aliases"] and t.startswith("<default>."):
             return "KF-40"
